@@ -282,6 +282,74 @@ example :
   · decide +kernel
   · decide +kernel
 
+/-- the isotopomers the public query `get_isotopomers` hands out are exactly the names the totals
+    `X__total` of the built model sum over -/
+theorem C05_query_isotopomers_are_totals {b : Base} {lv : List (Name × Nat)}
+    {maps : List (Name × List Nat)} {il : List (Name × List Nat)} {m : LModel}
+    (hb : buildModel b lv maps il = .ok m) :
+    m.totals = (getIsotopomers lv).map fun kv => (plain (kv.1 ++ "__total"), kv.2) := by
+  unfold buildModel at hb
+  cases hg : b.rxns.mapM (buildRxn lv maps) with
+  | error e => rw [hg] at hb; simp [bind, Except.bind] at hb
+  | ok groups =>
+    rw [hg] at hb
+    simp only [bind, Except.bind, pure, Except.pure, Except.ok.injEq] at hb
+    subst hb
+    simp [getIsotopomers, List.map_map, Function.comp_def]
+
+/-- `get_isotopomers_of_at_position`: unknown compound → `KeyError`; a position beyond the compound's
+    label positions → `IndexError`; otherwise exactly the isotopomers labelled at every requested
+    position (none for a compound without positions), in isotopomer order -/
+theorem C05_query_at_position (lv : List (Name × Nat)) (x : Name) (ps : List Nat) :
+    (lv.lookup x = none → isotopomersAtPosition lv x ps = .error (.keyError x)) ∧
+    (∀ n, lv.lookup x = some n →
+      ((∃ p ∈ ps, n ≤ p) → isotopomersAtPosition lv x ps = .error .indexError) ∧
+      ((∀ p ∈ ps, p < n) → ∃ l, isotopomersAtPosition lv x ps = .ok l ∧
+        l.Sublist (binaryLabels x n) ∧
+        ∀ m, m ∈ l ↔ ∃ u, n > 0 ∧ u.length = n ∧ m = ⟨x, some u⟩ ∧ ∀ p ∈ ps, u[p]? = some true)) := by
+  refine ⟨?_, ?_⟩
+  · intro h
+    simp [isotopomersAtPosition, labelCount, h, bind, Except.bind]
+  · intro n h
+    refine ⟨?_, ?_⟩
+    · rintro ⟨p, hp, hle⟩
+      have : (ps.any fun p => decide (n ≤ p)) = true := List.any_eq_true.mpr ⟨p, hp, by simpa using hle⟩
+      simp [isotopomersAtPosition, labelCount, h, bind, Except.bind, this]
+    · intro hall
+      have hany : (ps.any fun p => decide (n ≤ p)) = false := by
+        rw [List.any_eq_false]
+        intro p hp; have := hall p hp; simp; omega
+      by_cases hn : n = 0
+      · subst hn
+        have hps : ps = [] := by
+          cases ps with
+          | nil => rfl
+          | cons p ps => exact absurd (hall p List.mem_cons_self) (by omega)
+        subst hps
+        refine ⟨[], by simp [isotopomersAtPosition, labelCount, h, bind, Except.bind, pure, Except.pure],
+          List.nil_sublist _, ?_⟩
+        intro m; simp
+      · have hpos : n > 0 := Nat.pos_of_ne_zero hn
+        refine ⟨((patterns n).filter fun u => ps.all fun p => u.getD p false).map fun u => ⟨x, some u⟩,
+          by simp only [isotopomersAtPosition, labelCount, h, bind, Except.bind, hany, hn,
+            Bool.false_eq_true, if_false, pure, Except.pure], ?_, ?_⟩
+        · simp only [binaryLabels, hpos, if_true]
+          exact List.Sublist.map _ List.filter_sublist
+        · intro m
+          simp only [List.mem_map, List.mem_filter, List.all_eq_true, mem_patterns]
+          constructor
+          · rintro ⟨u, ⟨hu, hb⟩, rfl⟩
+            refine ⟨u, hpos, hu, rfl, ?_⟩
+            intro p hp
+            have hlt : p < u.length := by rw [hu]; exact hall p hp
+            have := hb p hp
+            simp only [List.getD_eq_getElem?_getD, List.getElem?_eq_getElem hlt, Option.getD_some] at this
+            rw [List.getElem?_eq_getElem hlt, this]
+          · rintro ⟨u, _, hu, rfl, hb⟩
+            refine ⟨u, ⟨hu, ?_⟩, rfl⟩
+            intro p hp
+            simp [List.getD_eq_getElem?_getD, hb p hp]
+
 /-- the facts regenerated from the current `label_map.py` by `translate/c05.py` are the ones the
     model is written for: every mirrored function has its modelled statement shape (no decorator,
     no further dataclass field); names are `base ++ "__" ++ bits`; `it.product` enumerates '0'
